@@ -790,7 +790,10 @@ func GetDeleteWriteChangelogItems(
 			case storage.OnDuplicateInsertIgnore:
 				// If the tuple exists and the condition is the same, we can ignore it.
 				// We need to use its serialized text instead of reflect.DeepEqual to avoid comparing internal values.
-				if proto.Equal(existingTuple.GetKey().GetCondition(), tk.GetCondition()) {
+				// The stored condition is read back normalized (a missing context becomes an empty one),
+				// so the incoming condition has to be normalized the same way before comparing.
+				incoming := tupleUtils.NewRelationshipCondition(tk.GetCondition().GetName(), tk.GetCondition().GetContext())
+				if proto.Equal(existingTuple.GetKey().GetCondition(), incoming) {
 					continue
 				}
 				// If tuple conditions are different, we throw an error.
